@@ -1560,7 +1560,8 @@ pub fn run<S: Suite>(t: &mut Tape, cfg: &Cfg, out: &mut RunOut) {
     let eng = format!("frost/{}", S::NAME);
     let mut rng = SimRng::new(t.seed64());
     // ---- world size
-    let huge = cfg.tier == Tier::Thorough && cfg.big_n && t.chance(1, 60);
+    // (quick tier: about a dozen runs per check at the documented maximum; they cost seconds each)
+    let huge = cfg.big_n && t.chance(1, if cfg.tier == Tier::Thorough { 60 } else { 40 });
     let (tmin, n) = if huge {
         // the documented maximum group size (and just below it)
         let n = [65535usize, 65535, 65534, 40000][t.usize(4)];
@@ -1667,7 +1668,14 @@ pub fn run<S: Suite>(t: &mut Tape, cfg: &Cfg, out: &mut RunOut) {
         Some(g2) if S::gsk_encode(g2) == gske && S::gpk_encode(S::gsk_public(g2)) == gpk_enc => {}
         _ => out.violate("C15", format!("frost/{}/roundtrip:group_private_key", S::NAME), "GroupPrivateKey encode/decode".into()),
     }
-    let (shares, vss) = S::split(&mut rng, gsk, tmin, n);
+    // 2 <= t <= n <= 65535 is the documented domain: a panic here is a completeness failure of the dealer's step
+    let (shares, vss) = match crate::core::guard_raw(|| S::split(&mut rng, gsk, tmin, n)) {
+        Ok(x) => x,
+        Err(m) => {
+            out.violate("C15", format!("frost/{}/complete:trusted_split", S::NAME), format!("trusted_split(t={}, n={}) panicked: {}", tmin, n, m));
+            return;
+        }
+    };
     let vss_enc = S::vss_encode_list(&vss);
     if shares.len() != n || vss.len() != tmin {
         out.violate("C15", format!("frost/{}/complete:trusted_split", S::NAME), format!("{} shares, {} vss elements for t={} n={}", shares.len(), vss.len(), tmin, n));
@@ -1720,6 +1728,31 @@ pub fn run<S: Suite>(t: &mut Tape, cfg: &Cfg, out: &mut RunOut) {
         let i = t.usize(n);
         if !S::share_verify_split(shares[i], &vss) {
             out.violate("C15", format!("frost/{}/complete:verify_split", S::NAME), format!("share {} of {} fails verify_split (t={})", i + 1, n, tmin));
+        }
+    }
+    // a malicious dealer: a commitment list of individually valid elements whose polynomial vanishes at the
+    // victim's identifier (the evaluation every verifier performs is then the neutral element). The victim's
+    // genuine share can never match it, and nothing may panic. (derive_group_info is documented to assume a
+    // commitment that "has been duly verified", so it is not given this list.)
+    if t.chance(1, 6) {
+        let i = t.usize(n);
+        let enc = S::vss_vanishing_at(&mut rng, if t.chance(1, 2) { tmin } else { 2 + t.usize(4) }, (i + 1) as u64);
+        out.probe("probe.frost.dealer_commitment_vanishing_at_victim");
+        let eng = format!("frost/{}", S::NAME);
+        if let Some(Some(bad)) = guard_c19(out, &eng, "call.frost.vss_decode_list", || crate::util::hex(&enc), || S::vss_decode_list(&enc)) {
+            // the share package comes from the same dealer: once as dealt (its group-key field then differs from
+            // the list's constant term), once with the group-key field set to that constant term
+            let mut pkg = S::share_encode(shares[i]);
+            let l = pkg.len();
+            pkg[l - S::NE..].copy_from_slice(&enc[..S::NE]);
+            let consistent = guard_c19(out, &eng, "call.frost.share_decode", || crate::util::hex(&pkg), || S::share_decode(&pkg)).flatten();
+            for sh in [Some(shares[i]), consistent].into_iter().flatten() {
+                let r = guard_c19(out, &eng, "call.frost.verify_split", || format!("victim {} list {}", i + 1, crate::util::hex(&enc)), || S::share_verify_split(sh, &bad));
+                out.ev(format_args!("malicious dealer: vanishing commitment for signer {} -> verify_split {:?}", i + 1, r));
+                if r == Some(true) {
+                    out.violate("C15", format!("frost/{}/reject:verify_split:vanishing-commitment", S::NAME), format!("a share with a non-zero key passed verify_split against a commitment that evaluates to the neutral at its identifier: {}", crate::util::hex(&enc)));
+                }
+            }
         }
     }
     // single-signer path on the group key: seeded variant with seeds of every length class; deterministic,
